@@ -252,4 +252,20 @@ CLAIMS = {
         'technique': 'static analysis: exhaustive small-program table by abstract interpretation of the TIFA flow '
                      'core vs a path-enumeration oracle; sibling agreement of visitors (ast only)',
     },
+    'C10': {
+        'text': "The guards that make a returned mapping an embedding are located and checked where every mapping is "
+                "produced: same node class / field count / meta dominate the single AstMap construction of "
+                "shallow_match_main and the mismatch flag is sticky; handlers that build maps themselves test first; "
+                "definition names are compared or bound; primitive content is compared type-aware, the None-shortcut "
+                "does not skip Constant.value and is_primitive (tabulated by abstract interpretation over all eight "
+                "Constant value types) covers every literal type; callers pass only four reasoned ignores; map_merge "
+                "accepts only strictly later siblings without conflicts; operand swapping is tabulated per operator "
+                "(only + and *); the conflict bookkeeping of AstMap is tabulated and re-detection on merge is "
+                "checked; the three placeholder regexes are enumerated over all strings up to length 6 over {_,a,b}.",
+        'note': _NOTE + "Not decided: that the composition of these guards over the recursive search yields an "
+                        "embedding for every program/pattern pair (an inductive argument about the algorithm); "
+                        "__expr__ rebinding.",
+        'technique': 'static analysis: dominance of guards over mapping construction, finite-domain tables of '
+                     'is_primitive / operator dispatch / conflict bookkeeping, regex enumeration (ast only)',
+    },
 }
